@@ -13,7 +13,7 @@ def decode(string):
   return obj
 
 def validate_encoded(string):
-  if not re.match(r"^\*$|^[A-Za-z=.]+$", string):
+  if not re.match(r"^\*\Z|^[A-Za-z=.]+\Z", string):
     raise gfapy.FormatError(
       "the string {} is not a valid GFA1 sequence\n".format(repr(string))+
       "(it is not * and does not match the regular expression [A-Za-z=.]+")
